@@ -172,6 +172,7 @@ func wiringTypes(e *Env) {
 			continue
 		}
 		checkCall(selfRel+"#service:"+s.Name, sig, 0, s.Args, s.Pos)
+		noErrorResult(e, selfRel+"#service:"+s.Name, sig, s.Pos)
 	}
 	for i, d := range gm.Decorators {
 		key := fmt.Sprintf("%s#decorator[%d]", selfRel, i)
@@ -181,6 +182,7 @@ func wiringTypes(e *Env) {
 			continue
 		}
 		checkCall(key, sig, 1, d.Args, d.Pos)
+		noErrorResult(e, key, sig, d.Pos)
 	}
 	// getters: declared type is assignable from the service's final type
 	for _, g := range gm.Getters {
@@ -510,3 +512,15 @@ func c12Unmarshalers(e *Env) {
 }
 
 var _ = sort.Strings
+
+// noErrorResult: buildRunner fetches its objects with the Must* getters, which panic on any error; a
+// constructor or decorator of the tool's own wiring that can return an error turns a user mistake (a flag
+// value it dislikes) into a Go panic with a stack trace and exit status 2.
+func noErrorResult(e *Env, key string, sig *types.Signature, pos token.Pos) {
+	res := sig.Results()
+	if res.Len() > 0 && isErrorType(res.At(res.Len()-1).Type()) {
+		e.R.Violate("R12.8", key+"#cannot-fail", "the wired function returns an error: the Must* getters of buildRunner turn it into a panic instead of a reported error", nil, e.P.Pos(pos))
+		return
+	}
+	e.R.Hold("R12.8", key+"#cannot-fail", "the wired function has no error result", e.P.Pos(pos))
+}
